@@ -49,7 +49,16 @@ def _ew(f, defined=None):
 
     def h(x, *a, **k):
         k.pop("dtype", None)
-        k.pop("out", None)
+        out = k.pop("out", None)
+        if out is None and a and isinstance(a[0], (A, EA, np.ndarray)):
+            out = a[0]  # positional out argument of a ufunc
+        if out is not None:
+            # numpy writes the result into `out` and returns it: same here (a store into that array, logged as an effect)
+            r = h(x, **k)
+            if isinstance(out, (A, EA)) or hasattr(out, "__setitem__"):
+                out[...] = r
+                return out
+            raise Unsupported("out= argument of type %s" % type(out).__name__)
         if hasattr(x, "__nss_apply__"):
             return x.__nss_apply__(lambda e: f(num(e)))
         if isinstance(x, EA):
